@@ -780,7 +780,9 @@ class unyt_array(np.ndarray):
                         RuntimeWarning,
                         stacklevel=2,
                     )
-                float_values = values.astype(new_dtype)
+                # scale before narrowing to the float type of the same width,
+                # like in_units does
+                float_values = (values * conv_factor).astype(new_dtype)
                 # change the dtypes in-place, this does not change the
                 # underlying memory buffer
                 values.dtype = new_dtype
@@ -788,7 +790,8 @@ class unyt_array(np.ndarray):
                 # actually fill in the new float values now that our
                 # dtype is correct
                 np.copyto(values, float_values)
-            values *= conv_factor
+            else:
+                values *= conv_factor
 
             if offset:
                 np.subtract(values, offset, values)
